@@ -95,6 +95,8 @@ fn verif_read_source_file(path: &Xstr) -> Xresult1<String> { unimplemented!() }
 //@use compile.fns ::core_word_setvar
 //@use compile.fns ::core_word_nil
 //@use compile.fns ::core_word_def_begin_named
+//@use compile.fns ::core_word_def_begin
+//@use compile.fns ::core_word_late
 //@use compile.fns ::core_word_nested_begin
 //@use compile.fns ::core_word_nested_end
 //@use compile.fns ::core_word_def_end
